@@ -15,7 +15,10 @@ import (
 // TextSrc is a diff held as text, read into a shared diff value by a reader.
 type TextSrc struct {
 	Kind string `json:"kind"` // merge | patch | jd
-	Text string `json:"text"`
+	Text string `json:"text,omitempty"`
+	// Derive: the text is rendered from A.Diff(B) when the world is built
+	// ("patch" or "jd"), so that a generated case never embeds jd output
+	Derive string `json:"derive,omitempty"`
 }
 
 // Call is one read-only API call of a history.
@@ -265,6 +268,21 @@ func viol15(clause, where, format string, a ...any) *Violation {
 
 var lastSites15 []string
 
+// trace15, when set, collects one line per call with the complete output, for
+// the comparison across fresh processes.
+var trace15 *[]string
+
+func (w *world) operandPrint() string {
+	var b strings.Builder
+	for _, s := range w.nodes {
+		b.WriteString(s.print)
+	}
+	for _, s := range w.diffs {
+		b.WriteString(fingerprint(s.live))
+	}
+	return b.String()
+}
+
 // checkC15 runs the history of a case and evaluates the four invariants.
 func checkC15(c C15Case) (*Violation, []string, *caseInfo) {
 	info := &caseInfo{}
@@ -291,6 +309,11 @@ func checkC15(c C15Case) (*Violation, []string, *caseInfo) {
 			return nil, nil, info // a panicking Diff is not C15's business
 		}
 		w.addDiff(fmt.Sprintf("D[%s]", strings.Join(c.Opts[i], "+")), d, d)
+	}
+	for i := range c.Texts {
+		if c.Texts[i].Derive != "" && c.Texts[i].Text == "" {
+			c.Texts[i].Text = privateRender(c.A, c.B, c.Texts[i].Derive)
+		}
 	}
 	for i, t := range c.Texts {
 		var d jd.Diff
@@ -366,6 +389,9 @@ func checkC15(c C15Case) (*Violation, []string, *caseInfo) {
 			where = "Read:" + c.Texts[call.T].Kind
 		}
 		w.log = append(w.log, fmt.Sprintf("call %d %s d=%d o=%d n=%d -> %x (reference %x)", i, call.Op, call.D, call.O, call.N, strSeed(got.String()), strSeed(want.String())))
+		if trace15 != nil {
+			*trace15 = append(*trace15, fmt.Sprintf("call %d %s operands=%x output=%s", i, call.Op, strSeed(w.operandPrint()), got.String()))
+		}
 		if want.pan != "" && got.pan != "" {
 			continue // the call panics on pristine input too: C13's business
 		}
@@ -410,6 +436,33 @@ func checkC15(c C15Case) (*Violation, []string, *caseInfo) {
 		}
 		if r1.String() != r2.String() {
 			return viol15("still-patches", "Patch", "after the history %s, patching A with %s gives %s; patching with its never-used twin gives %s", strings.Join(ops, " · "), s.name, showStr(r1.String()), showStr(r2.String())), w.log, info
+		}
+	}
+	// the same values, then patch: the live document patched with one of its
+	// live diffs (nothing copied) must end like fresh copies do. This is the
+	// last use of the live A: Patch may edit its receiver.
+	if n := len(c.Opts); n > 0 {
+		s := w.diffs[len(c.Calls)%n]
+		t2, _ := readDoc(c.A, c.YAML)
+		twin := deepCopyAny(s.pristine).(jd.Diff)
+		r2 := guardCall(func() outcome {
+			x, err := t2.Patch(twin)
+			if err != nil {
+				return outcome{err: true}
+			}
+			return outcome{text: x.Json()}
+		})
+		liveA, liveD := w.nodes[0].live.(jd.JsonNode), s.live.(jd.Diff)
+		r1 := guardCall(func() outcome {
+			x, err := liveA.Patch(liveD)
+			if err != nil {
+				return outcome{err: true}
+			}
+			return outcome{text: x.Json()}
+		})
+		stats.LibCalls += 2
+		if !(r1.pan != "" && r2.pan != "") && r1.String() != r2.String() {
+			return viol15("still-patches-in-place", "Patch", "after the history %s, A.Patch(%s) on the very values the history used gives %s; fresh copies of the original document and diff give %s", strings.Join(ops, " · "), s.name, showStr(r1.String()), showStr(r2.String())), w.log, info
 		}
 	}
 	// signature: the set of call classes that occurred, what the shared diffs
@@ -511,6 +564,12 @@ func genCase15(c *Chooser) C15Case {
 			b.set("list", bl)
 		}
 	}
+	if a.K == 'o' && b.K == 'o' && c.Chance(1, 3) {
+		// set members that are long strings (hashing of long values)
+		long := func(i int) *Val { return vs(strings.Repeat(string(rune('p'+i)), 130+i) + "-long") }
+		a.set("longs", &Val{K: 'a', Elems: []*Val{long(0), long(1), long(2)}})
+		b.set("longs", &Val{K: 'a', Elems: []*Val{long(3), long(1), long(4), long(5)}})
+	}
 	if a.K == 'o' && b.K == 'o' && c.Chance(1, 2) {
 		a.set("gone", vs("x"))
 		a.set("gone2", &Val{K: 'o', Keys: []string{"k"}, Vals: []*Val{vn(1)}})
@@ -552,7 +611,7 @@ func genCase15(c *Chooser) C15Case {
 					fmt.Fprintf(&sb, "@ [%q,\"x\"]\n+ [1,2,{\"z\":%d}]\n", k, j)
 				}
 			}
-			cs.Texts = append(cs.Texts, TextSrc{"jd", sb.String()})
+			cs.Texts = append(cs.Texts, TextSrc{Kind: "jd", Text: sb.String()})
 		case 0:
 			// a multi-key nested merge patch (nulls delete)
 			gm := g
@@ -561,11 +620,11 @@ func genCase15(c *Chooser) C15Case {
 			for j := 0; j < c.Range(2, 6); j++ {
 				m.set(genKey(c, gm), genVal(c, gm, 1))
 			}
-			cs.Texts = append(cs.Texts, TextSrc{"merge", m.JSON(0)})
+			cs.Texts = append(cs.Texts, TextSrc{Kind: "merge", Text: m.JSON(0)})
 		case 1:
-			cs.Texts = append(cs.Texts, TextSrc{"patch", privateRender(cs.A, cs.B, "patch")})
+			cs.Texts = append(cs.Texts, TextSrc{Kind: "patch", Derive: "patch"})
 		default:
-			cs.Texts = append(cs.Texts, TextSrc{"jd", privateRender(cs.A, cs.B, "jd")})
+			cs.Texts = append(cs.Texts, TextSrc{Kind: "jd", Derive: "jd"})
 		}
 	}
 	nd := len(cs.Opts) + len(cs.Texts)
@@ -735,7 +794,7 @@ func shrink15(raw json.RawMessage) []json.RawMessage {
 	for i, ts := range c.Texts {
 		for _, t := range shrinkText(ts.Text, false) {
 			d := cp()
-			d.Texts[i] = TextSrc{ts.Kind, t}
+			d.Texts[i] = TextSrc{Kind: ts.Kind, Text: t}
 			add(d)
 		}
 	}
